@@ -12,6 +12,12 @@ def judge (toks : List String) : String :=
   match toks with
   | "note" :: _ => "ok"
   | "chk" :: p :: rest =>
+    -- chk epochEnd[/<tag>] … | oldStartNs durationNs newStartNs oldCurrent newCurrent
+    if p == "epochEnd" || p.startsWith "epochEnd/" then
+      match ((rest.dropWhile (· ≠ "|")).drop 1).mapM (fun (s : String) => s.toInt?) with
+      | some [a, b, c, d, e] => toString (epochEndOK a b c d e)
+      | _ => "bad-op"
+    else
     -- the predicate token is `allEqual` or `allEqual/<tag>` (the tag makes bin/check report the first failure per tag)
     if !(p == "allEqual" || p.startsWith "allEqual/") then "bad-op" else
     let hdr := rest.takeWhile (· ≠ "|")
